@@ -252,6 +252,9 @@ func RunCheck(opt *Options) (*CheckReport, error) {
 		}
 		tn, ok := p.Scope().Lookup(pi.Name).(*types.TypeName)
 		if !ok {
+			if _, full := ld.pkgs[p.Path()]; !full {
+				continue // only partially imported (export data): not used by this property's kernel
+			}
 			return nil, fmt.Errorf("%s: trusted pure interface %s.%s: no such type", pi.File, pi.Pkg, pi.Name)
 		}
 		ms := types.NewMethodSet(tn.Type())
